@@ -65,6 +65,18 @@ CLAIMED = {
    text="Machine-checked Lean 4 proof: the code-model receivers accept ANY valid chunk plan (any cut of the plaintext, final marker on the last chunk; V1 empty terminator; V2 no empty chunk except the empty message) for encryption (every recipient position), attached signatures (also any minor version) and signcryption, returning the concatenation of the chunks and the right attribution; the shipped validator ignores the minor version; the typed views ignore extra trailing elements in version pairs, headers, recipient pairs and payload packets of every mode/version. Tied to /repo by an independent reference sender written in Lean from specs/*.md with its own constants (Model/Spec.lean): random chunkings incl. all-1-byte chunks, unknown minors, 0-3 extras at each of the three places, all four modes, every opener kind - its messages are fed to Open/Verify/VerifyDetached/SigncryptOpen and must be accepted with the same plaintext and attribution (and the code model must agree).",
    note="The link 'reference sender output = sealPacketsPlan + extras' is by correspondence (both are run), not a theorem. Assumes Prims.Lawful, NoSpuriousOpen, NoIdentifierCollision as C01/C03.",
    technique="Lean 4 proof (round trips generalised to arbitrary valid chunk plans; view lemmas) + independent reference encoder differential", design="§7 C09"),
+ "C13": dict(
+   text="Machine-checked Lean 4 proof for the write side and the chunk reader: the plaintext bufferer shared by NewEncryptStream/NewSignStream/NewSigncryptSealStream yields, for EVERY split of the plaintext over Write calls (empty writes included), exactly the all-at-once chunk plan, buffers at most one block after each Write and conserves bytes; the BaseX encoder stream equals the one-shot encoding for every split and holds back less than one block; the chunk reader delivers the pending bytes exactly once, in order, never more than the caller's buffer, and reports its terminal condition only at the end and then again; the source model never loses or reorders bytes. The armor READER stack (punctuatedReader, framedDecoderStream, filteringReader, BaseX decoder) is modelled call by call and compared with the implementation per Read under 8 fragmentations (1-byte, halving, random, one-shot, 4095, each also with data-with-EOF) x 10 buffer-size schedules on genuine, re-flowed and malformed texts; whole entry points of every mode are run under fragmenting readers against the fragmentation-free model, and the property's predicate (same outcome, same bytes, prefix-comparable on failure) is evaluated across each group.",
+   note="PARTIAL: no machine-checked layer theorem yet for the armor reader stack (correspondence only there; its whole-text meaning is Armor.openPure, C11); go-codec's reading of an io.Reader is differential only; resident memory/GC is not modelled (the bound is on buffered bytes). This correspondence found and led to the repair of defect D11 (filteringReader dropped an error delivered with whitespace-only data).",
+   technique="Lean 4 proof (fold invariants over Write/Read sequences) + per-call state-machine differential correspondence under fragmentation schedules", design="§7 C13"),
+ "C14": dict(
+   text="Machine-checked Lean 4 proof: the BaseX encoder stream (the layer every armored encoder writes through) is sticky and reporting - after a failed underlying write every later Write and Close fail, and a Close that reports success after successful Writes has seen no failed write; the BaseX decoder's and the chunk reader's error conditions are sticky; the punctuated reader hands on an error that arrives alone and remembers one that arrives with data. Every other path is covered by fault injection at EVERY k-th underlying Write of 11 encoder stream kinds (binary and armored, all modes; transient and sticky) and at every k-th Read of the armor reader stack (alone/with data/with whitespace-only data; transient/sticky) per call against the model, plus whole decoding entry points over faulting readers, with the property's predicate (an error is reported; released bytes stay a plaintext prefix) on the implementation.",
+   note="PARTIAL: go-codec's Encode/Decode error propagation and the armor spacer's write path are validated by exhaustive-k fault injection, not proved.",
+   technique="Lean 4 proof (sticky-error invariants) + every-k fault-injection differential correspondence", design="§7 C14"),
+ "C20": dict(
+   text="Machine-checked Lean 4: (1) the effect summary regenerated from /repo by go/ssa on every run - stores, map updates and receiver-mutating math/big calls whose target is rooted in a package-level variable or a *basex.Encoding, outside init/NewEncoding - is EMPTY and the package-level variables are only error values, the shipped encodings, the armor parameters and frame-checker function values (kernel-checked decide on the generated lists); (2) in any machine whose steps cannot write the shared state, every schedule gives each thread the state of its solo run. Validation: a mixed workload of all API families (BaseX, armor, classify, all decoders on genuine and mutated input, per-call stream reads, real-randomness round trips on shared basic keys) run in 8-24 goroutines x GOMAXPROCS {1,2,4,N} with every result compared to the solo result and to the model; thorough tier under the race detector.",
+   note="PARTIAL by nature: soundness of the static write-set extraction (aliasing through interfaces, stdlib internals) and the Go memory model are outside the model; the race-detector run is supporting evidence, not a proof.",
+   technique="generated effect summary checked in Lean (decide) + Lean 4 proof of schedule independence under the frame condition + concurrent differential workload (race detector in thorough)", design="§7 C20"),
 }
 
 ALL = ["C%02d" % i for i in range(1, 21)]
